@@ -6,11 +6,16 @@ from harness import engine_suites, synth_suites
 RULE = ("random workflows (1-5 stages, every join type, scripted task outcomes incl. polling / transient / jump / suspend) x "
         "delivery schedules (fifo | random order | random + redelivery of unacknowledged messages | arbitrary incl. early re-polls), "
         "every op is applied to the REAL engine and the Lean model, the state line after every op is compared; "
-        "a trace is distinct by (spec, op list) and non-trivial when it has >= 8 ops and a non-FIFO choice or an injected op")
+        "a trace is distinct by (spec, op list) and non-trivial when it has >= 8 ops and a non-FIFO choice or an injected op;"
+        " PLUS the synthetic-stage family (harness/synth_suites.py, IMPLEMENTATION-ONLY: monitors on real-engine traces, no model line): workflows of 1-3 top-level stages (single | chain | two parallel roots | fan-in), some with 1-2 pre-declared STAGE_BEFORE and / or STAGE_AFTER children (children 1 task, parents 0-2; task results succeed | terminal | fail-continue | poll then succeed | suspend), stored through the real store, driven by fifo | random | redelivery | starve | arbitrary schedules, cancel before a random step or inside the parent-waits-for-child window, signals for suspended stages, recovery sweeps injected into healthy runs, and (every fourth unit) kill after k commits + restart + sweep(s) + late redelivery + drain; judged by smon_c05 (children included) and the transition-table monitor")
 ASSUMPTIONS = ["delays are abstracted: budget-respecting schedules deliver a delayed message only when no immediate one is pending",
-               "per-workflow circuit breaker disabled in the harness (volatile state outside the model)"]
+               "per-workflow circuit breaker disabled in the harness (volatile state outside the model)",
+               "synthetic-stage family: 'explicitly waiting' = some stage, child included, SUSPENDED / PAUSED; 'every top-level stage continuable' is checked on top-level stages, 'no stage left running' on children too; a terminal failure absorbed by continuePipelineOnFailure of the stage or its parent does not have to fail the workflow",
+               "synthetic-stage family: the nine defects it found on the unchanged tree (S1-S9) were repaired (F44-F51); its pending gate (synth_suites.PENDING) is empty, every synth: signature is reported"]
 TRUSTED_BASE = ["Engine model (lean/Stab/Model/Engine.lean) is hand-written; tied to handlers/* by the trace differential on generated schedules only",
-                "not modelled: synthetic stages, mutex/deferred choice, OR-split conditions, pause/resume, timeouts, PostgreSQL backend"]
+                "not modelled: synthetic stages (and ContinueParentStage), mutex/deferred choice, OR-split conditions, pause/resume, timeouts, PostgreSQL backend",
+                "synthetic before/after stages are covered by an IMPLEMENTATION-ONLY family (harness/synth_suites.py): the property is stated by monitors on traces of the real engine; "
+                "no theorem and no model correspondence speaks about them; trusted there: the generator, the monitors' reading of the property (ASSUMPTIONS), the queue's dead-letter rule as replayed by the harness (op q = the real check_and_move_expired after max_attempts deliveries)"]
 
 
 def run(ctx) -> None:
